@@ -374,3 +374,89 @@ fn t_h10short__wr_box_header_3_bytes_per_call() {
 fn t_h10short__wr_box_header_1_byte_per_call() {
     short_wr_box_header(1)
 }
+
+/// udta { meta { hdlr(mdir) } }: a stream failure inside the nested meta box must surface.
+#[kani::proof]
+#[kani::unwind(8)]
+fn t_h10rd__udta_meta() {
+    let mut bytes = [0u8; 64];
+    let n = {
+        let mut w = crate::common::refw::RefW::new(&mut bytes[..]);
+        let u = w.begin(b"udta");
+        let m = w.begin(b"meta");
+        w.u32(0);
+        let h = w.begin_full(b"hdlr", 0, 0);
+        w.zeros(4);
+        w.cc(b"mdir");
+        w.zeros(12);
+        w.u8(0);
+        w.end(h);
+        w.end(m);
+        w.end(u);
+        w.p as u64
+    };
+    let k: u32 = kani::any();
+    let mut r = fail_at(&bytes[..], 8, k);
+    match UdtaBox::read_box(&mut r, n) {
+        Ok(u) => {
+            assert!(!r.fired, "C10 a failed stream call never results in success");
+            assert!(matches!(u.meta, Some(MetaBox::Mdir { ilst: None })), "C10 fault-free result");
+            kani::cover!(true, "fault-free run");
+            std::mem::forget(u);
+        }
+        Err(Error::IoError(e)) => {
+            assert!(r.fired, "C10 I/O error only when the stream failed");
+            kani::cover!(true, "fault surfaced as an I/O error");
+            std::mem::forget(e);
+        }
+        Err(e) => {
+            std::mem::forget(e);
+            assert!(false, "C10 a stream failure surfaces as an I/O error, nothing else");
+        }
+    }
+}
+
+/// write_zeros (padding of mvhd / avc1 / hev1) through a writer that accepts at most 2 bytes per
+/// call with one interrupted call (symbolic index): still n zeros at n positions.
+#[kani::proof]
+#[kani::unwind(6)]
+fn q_h10short__write_zeros_2_bytes_per_call() {
+    let mut out = [0xAAu8; 6];
+    {
+        let mut w = chunked_w(&mut out[..], 2, kani::any());
+        match write_zeros(&mut w, 3) {
+            Ok(()) => assert!(w.inner.position() == 3, "C10 short writes: all padding bytes are written"),
+            Err(e) => {
+                std::mem::forget(e);
+                assert!(false, "C10 short and interrupted writes are not errors");
+            }
+        }
+    }
+    let i: usize = kani::any();
+    kani::assume(i < 6);
+    assert!(out[i] == if i < 3 { 0 } else { 0xAA }, "C10 short writes produce exactly the same bytes");
+    kani::cover!(true, "compared");
+}
+
+/// write_zeros through a writer whose k-th call fails (error or zero-length write).
+#[kani::proof]
+#[kani::unwind(6)]
+fn q_h10wr__write_zeros_failing() {
+    let mut out2 = [0u8; 6];
+    let k: u32 = kani::any();
+    let fault = if kani::any() { Fault::Error } else { Fault::ZeroWrite };
+    let mut w = fail_w(&mut out2[..], k, fault);
+    match write_zeros(&mut w, 3) {
+        Ok(()) => assert!(!w.fired, "C10 a failed stream call never results in success"),
+        Err(Error::IoError(e)) => {
+            assert!(w.fired, "C10 I/O error only when the stream failed");
+            std::mem::forget(e);
+        }
+        Err(e) => {
+            std::mem::forget(e);
+            assert!(false, "C10 a stream failure surfaces as an I/O error");
+        }
+    }
+    kani::cover!(w.fired, "fault fired");
+    kani::cover!(!w.fired, "no fault");
+}
